@@ -104,6 +104,30 @@ def node_role(b, op, depth=6, ctx_fields=("current_from",)):
     return "unknown", str(rt)
 
 
+def edge_wrapper(ctx, callee):
+    """A helper of the graph module that adds one edge between the nodes of two of its parameters (`add_dependency(dependent, depends_on)`):
+    -> (index of the parameter that ends up as add_edge's first endpoint, index of the second), 1-based over the callee's locals; or None"""
+    for hb in ctx.prog.get(callee or "") or []:
+        if hb.f["crate"] != "ironplc_analyzer" or "xform_toposort_declarations" not in hb.f["file"]:
+            continue
+        es = [c for c in hb.calls() if (c.callee or "").endswith("StableGraph::add_edge")]
+        if len(es) != 1 or not must_call(ctx, hb, "StableGraph::add_edge", depth=0):
+            continue
+        idx = []
+        for a in es[0].args[1:3]:
+            p = op_place(a)
+            d = hb.single_def(hb.root(p)[0]) if p else None
+            if not (d and d[0] == "call" and (d[2].callee or "").endswith("DeclarationsGraph::add_node") and len(d[2].args) > 1):
+                idx.append(None)
+                continue
+            np_ = op_place(d[2].args[1])
+            rt = hb.root(np_) if np_ is not None else None
+            idx.append(rt[0] if rt is not None and 1 <= rt[0] <= hb.f["argc"] and not [x for x in rt[1] if isinstance(x, list)] else None)
+        if None not in idx:
+            return tuple(idx)
+    return None
+
+
 def rule_orient(ctx, rep):
     r = rep.rule("R-C07-orient", "every add_edge on the declaration graph uses one orientation between the declared (containing) node and the "
                                  "referenced node, so a cycle through mixed constructs is a cycle in the graph", floor=7, floor_what="add_edge sites")
@@ -118,16 +142,22 @@ def rule_orient(ctx, rep):
             continue
         n = {}
         for c in sorted(b.calls(), key=lambda c: (c.loc[0], c.loc[1])):
-            if not (c.callee or "").endswith("StableGraph::add_edge"):
-                continue
             roles = []
-            for a in c.args[1:3]:
-                p = op_place(a)
-                d = b.single_def(b.root(p)[0]) if p else None
-                if d and d[0] == "call" and (d[2].callee or "").endswith("DeclarationsGraph::add_node"):
-                    roles.append(node_role(b, d[2].args[1], ctx_fields=cf))
-                else:
-                    roles.append(("unknown", "?"))
+            if (c.callee or "").endswith("StableGraph::add_edge"):
+                for a in c.args[1:3]:
+                    p = op_place(a)
+                    d = b.single_def(b.root(p)[0]) if p else None
+                    if d and d[0] == "call" and (d[2].callee or "").endswith("DeclarationsGraph::add_node"):
+                        roles.append(node_role(b, d[2].args[1], ctx_fields=cf))
+                    else:
+                        roles.append(("unknown", "?"))
+            else:
+                # a helper that adds the edge for two names it is given: the names at this call site are the endpoints
+                w = edge_wrapper(ctx, c.callee)
+                if w is None:
+                    continue
+                for k_ in w:
+                    roles.append(node_role(b, c.args[k_ - 1], ctx_fields=cf) if k_ - 1 < len(c.args) else ("unknown", "?"))
             k = n[b.f["name"]] = n.get(b.f["name"], 0) + 1
             sites.append((b, c, "%s#%d" % (b.f["name"], k), roles))
     if not sites:
@@ -312,7 +342,7 @@ def rule_edgeguard(ctx, rep, rid="R-C07-edgeguard"):
         dom = b.dominators()
         k = 0
         for c in sorted(b.calls(), key=lambda c: (c.loc[0], c.loc[1])):
-            if not (c.callee or "").endswith("::add_edge"):
+            if not (c.callee or "").endswith("::add_edge") and edge_wrapper(ctx, c.callee) is None:
                 continue
             n += 1
             k += 1
